@@ -9,24 +9,28 @@ package ro
 //@ func Merge
 //@   props C04 C05
 //@   binds sources
+//@   scope sources
 //@   track call.ANY callfn.ANY
 //@   ensures [is-MergeAll-over-the-sources-in-order|C04,C05] trace(call.MergeAll(), call.Just(old(sources)), callfn.ANY(res(call.Just)))
 
 //@ func Concat
 //@   props C04 C05 C15
 //@   binds obs
+//@   scope obs
 //@   track call.ANY callfn.ANY
 //@   ensures [is-ConcatAll-over-the-sources-in-order|C04,C05,C15] trace(call.ConcatAll(), call.Just(old(obs)), callfn.ANY(res(call.Just)))
 
 //@ func Zip
 //@   props C04 C05
 //@   binds sources
+//@   scope sources
 //@   track call.ANY callfn.ANY
 //@   ensures [is-ZipAll-over-the-sources-in-order|C04,C05] trace(call.ZipAll(), call.Just(old(sources)), callfn.ANY(res(call.Just)))
 
 //@ func CombineLatestAny
 //@   props C04 C05
 //@   binds sources
+//@   scope sources
 //@   track call.ANY callfn.ANY
 //@   ensures [is-CombineLatestAllAny-over-the-sources-in-order|C04,C05] trace(call.CombineLatestAllAny(), call.Just(old(sources)), callfn.ANY(res(call.Just)))
 
@@ -35,6 +39,7 @@ package ro
 //@   binds obsA obsB
 //@   calls Just MergeAll fn:t0
 //@   params obsA
+//@   scope obsA obsB varargs
 //@   track call.ANY callfn.ANY
 //@   ensures [merges-the-source-first-then-the-argument|C04,C05] trace(call.MergeAll(), call.Just(elems(obsA, obsB)), callfn.ANY(res(call.Just)))
 
@@ -43,6 +48,7 @@ package ro
 //@   binds obsA obsB obsC
 //@   calls Just MergeAll fn:t0
 //@   params obsA
+//@   scope obsA obsB obsC varargs
 //@   track call.ANY callfn.ANY
 //@   ensures [merges-the-source-first-then-the-arguments-in-order|C04,C05] trace(call.MergeAll(), call.Just(elems(obsA, obsB, obsC)), callfn.ANY(res(call.Just)))
 
@@ -51,6 +57,7 @@ package ro
 //@   binds obsA obsB obsC obsD
 //@   calls Just MergeAll fn:t0
 //@   params obsA
+//@   scope obsA obsB obsC obsD varargs
 //@   track call.ANY callfn.ANY
 //@   ensures [merges-the-source-first-then-the-arguments-in-order|C04,C05] trace(call.MergeAll(), call.Just(elems(obsA, obsB, obsC, obsD)), callfn.ANY(res(call.Just)))
 
@@ -59,6 +66,7 @@ package ro
 //@   binds obsA obsB obsC obsD obsE
 //@   calls Just MergeAll fn:t0
 //@   params obsA
+//@   scope obsA obsB obsC obsD obsE varargs
 //@   track call.ANY callfn.ANY
 //@   ensures [merges-the-source-first-then-the-arguments-in-order|C04,C05] trace(call.MergeAll(), call.Just(elems(obsA, obsB, obsC, obsD, obsE)), callfn.ANY(res(call.Just)))
 
@@ -67,6 +75,7 @@ package ro
 //@   binds obsA obsB obsC obsD obsE obsF
 //@   calls Just MergeAll fn:t0
 //@   params obsA
+//@   scope obsA obsB obsC obsD obsE obsF varargs
 //@   track call.ANY callfn.ANY
 //@   ensures [merges-the-source-first-then-the-arguments-in-order|C04,C05] trace(call.MergeAll(), call.Just(elems(obsA, obsB, obsC, obsD, obsE, obsF)), callfn.ANY(res(call.Just)))
 
@@ -75,6 +84,7 @@ package ro
 //@   binds source obs
 //@   calls ConcatAll Just fn:t0
 //@   params source
+//@   scope obs slicelit source
 //@   track call.ConcatAll call.Just callfn.ANY
 //@   ensures [concatenates-the-source-first-then-the-arguments-in-order|C04,C05,C15] trace(call.ConcatAll(), call.Just(_), callfn.ANY(res(call.Just))) && len(arg(call.Just, 0)) == len(obs) + 1 && arg(call.Just, 0)[0] == source && forall(j, 0, len(obs), arg(call.Just, 0)[j + 1] == obs[j])
 
@@ -83,12 +93,14 @@ package ro
 //@   binds obsA observables
 //@   calls Just MergeAll fn:t8
 //@   params obsA
+//@   scope obsA observables
 //@   track call.MergeAll call.Just callfn.ANY
 //@   ensures [merges-the-source-first-then-the-arguments-in-order|C04,C05] trace(call.MergeAll(), call.Just(_), callfn.ANY(res(call.Just))) && len(arg(call.Just, 0)) == len(observables) + 1 && arg(call.Just, 0)[0] == obsA
 
 //@ func Race
 //@   props C04 C05
 //@   binds sources
+//@   scope sources
 //@   track call.ANY callfn.ANY
 //@   ensures [no-source-is-empty|C04,C05] len(sources) == 0 ==> trace(call.Empty())
 //@   ensures [first-source-races-the-others|C04,C05] len(sources) > 0 ==> trace(call.RaceWith(_), callfn.ANY(old(sources)[0])) && len(arg(call.RaceWith, 0)) == len(sources) - 1 && forall(j, 0, len(sources) - 1, arg(call.RaceWith, 0)[j] == old(sources)[j + 1])
@@ -101,12 +113,14 @@ package ro
 //@ func DefaultIfEmpty
 //@   props C04 C09
 //@   binds defaultValue
+//@   scope defaultValue
 //@   track call.DefaultIfEmptyWithContext
 //@   ensures [default-value-with-a-background-context|C04,C09] trace(call.DefaultIfEmptyWithContext(_, defaultValue)) && arg(call.DefaultIfEmptyWithContext, 0) != nil
 
 //@ func ObserveOn
 //@   props C04 C08
 //@   binds bufferSize
+//@   scope bufferSize
 //@   maypanic
 //@   track call.detachOn
 //@   ensures [detaches-downstream-only|C08] !panics ==> trace(call.detachOn(bufferSize, false, true)) && bufferSize > 0
@@ -114,6 +128,7 @@ package ro
 //@ func SubscribeOn
 //@   props C04 C08
 //@   binds bufferSize
+//@   scope bufferSize
 //@   maypanic
 //@   track call.detachOn
 //@   ensures [detaches-upstream-only|C08] !panics ==> trace(call.detachOn(bufferSize, true, false)) && bufferSize > 0
@@ -121,6 +136,7 @@ package ro
 //@ func BufferWithTime
 //@   props C04 C16
 //@   binds duration
+//@   scope duration
 //@   maypanic
 //@   track call.BufferWhen call.Interval
 //@   ensures [buffers-between-ticks-of-the-duration|C16] !panics ==> trace(call.Interval(duration), call.BufferWhen(res(call.Interval))) && duration > 0
@@ -128,66 +144,77 @@ package ro
 //@ func SampleTime
 //@   props C04 C16
 //@   binds interval
+//@   scope interval
 //@   track call.SampleWhen call.Interval
 //@   ensures [samples-at-ticks-of-the-interval|C16] trace(call.Interval(interval), call.SampleWhen(res(call.Interval)))
 
 //@ func Zip2
 //@   props C04 C05
 //@   binds obsA obsB
+//@   scope obsA obsB
 //@   track call.ANY callfn.ANY
 //@   ensures [zips-A-with-B|C04,C05] trace(call.ZipWith1(obsB), callfn.ANY(obsA))
 
 //@ func CombineLatest2
 //@   props C04 C05
 //@   binds obsA obsB
+//@   scope obsA obsB
 //@   track call.ANY callfn.ANY
 //@   ensures [combines-A-with-B|C04,C05] trace(call.CombineLatestWith1(obsB), callfn.ANY(obsA))
 
 //@ func Zip3
 //@   props C04 C05
 //@   binds obsA obsB obsC
+//@   scope obsA obsB obsC
 //@   track call.ANY callfn.ANY
 //@   ensures [zips-A-with-the-others-in-order|C04,C05] trace(call.ZipWith2(obsB, obsC), callfn.ANY(obsA))
 
 //@ func Zip4
 //@   props C04 C05
 //@   binds obsA obsB obsC obsD
+//@   scope obsA obsB obsC obsD
 //@   track call.ANY callfn.ANY
 //@   ensures [zips-A-with-the-others-in-order|C04,C05] trace(call.ZipWith3(obsB, obsC, obsD), callfn.ANY(obsA))
 
 //@ func Zip5
 //@   props C04 C05
 //@   binds obsA obsB obsC obsD obsE
+//@   scope obsA obsB obsC obsD obsE
 //@   track call.ANY callfn.ANY
 //@   ensures [zips-A-with-the-others-in-order|C04,C05] trace(call.ZipWith4(obsB, obsC, obsD, obsE), callfn.ANY(obsA))
 
 //@ func Zip6
 //@   props C04 C05
 //@   binds obsA obsB obsC obsD obsE obsF
+//@   scope obsA obsB obsC obsD obsE obsF
 //@   track call.ANY callfn.ANY
 //@   ensures [zips-A-with-the-others-in-order|C04,C05] trace(call.ZipWith5(obsB, obsC, obsD, obsE, obsF), callfn.ANY(obsA))
 
 //@ func CombineLatest3
 //@   props C04 C05
 //@   binds obsA obsB obsC
+//@   scope obsA obsB obsC
 //@   track call.ANY callfn.ANY
 //@   ensures [combines-A-with-the-others-in-order|C04,C05] trace(call.CombineLatestWith2(obsB, obsC), callfn.ANY(obsA))
 
 //@ func CombineLatest4
 //@   props C04 C05
 //@   binds obsA obsB obsC obsD
+//@   scope obsA obsB obsC obsD
 //@   track call.ANY callfn.ANY
 //@   ensures [combines-A-with-the-others-in-order|C04,C05] trace(call.CombineLatestWith3(obsB, obsC, obsD), callfn.ANY(obsA))
 
 //@ func CombineLatest5
 //@   props C04 C05
 //@   binds obsA obsB obsC obsD obsE
+//@   scope obsA obsB obsC obsD obsE
 //@   track call.ANY callfn.ANY
 //@   ensures [combines-A-with-the-others-in-order|C04,C05] trace(call.CombineLatestWith4(obsB, obsC, obsD, obsE), callfn.ANY(obsA))
 
 //@ func RangeWithInterval
 //@   props C04 C16
 //@   binds start end interval
+//@   scope end interval start v
 //@   track call.ANY callfn.ANY
 //@   ensures [an-empty-range-is-empty|C04] start == end ==> trace(call.Empty())
 //@   ensures [ticks-mapped-onto-the-range-and-cut-at-its-length|C04,C16] start != end ==> trace(call.Interval(interval), call.Map(_), call.Take(ite(start < end, end - start, start - end)), call.Pipe2(res(call.Interval), res(call.Map), res(call.Take)))
@@ -196,11 +223,13 @@ package ro
 //@   note the k-th tick becomes start + k (ascending) or start - k (descending)
 //@   props C04
 //@   binds v start end
+//@   scope end interval start v
 //@   ensures [kth-tick-is-the-kth-element|C04] result == ite(start < end, start + v, start - v)
 
 //@ func RepeatWithInterval
 //@   props C04 C16
 //@   binds item count interval
+//@   scope count interval item
 //@   maypanic
 //@   track call.ANY callfn.ANY
 //@   ensures [nothing-to-repeat-is-empty|C04] !panics && count == 0 ==> trace(call.Empty())
@@ -209,4 +238,5 @@ package ro
 //@ func RepeatWithInterval$1
 //@   props C04
 //@   binds item
+//@   scope count interval item
 //@   ensures [every-tick-becomes-the-item|C04] result == item
